@@ -70,7 +70,7 @@ func StructConfigs(thorough bool, caches []string, formats []string) []*world.Co
 				cs = append(cs, world.UintCfg(2, ulist(1, 2, 4), 1, f, cache))
 				cs = append(cs, depth(world.UintCfg(2, urange(1, 5), 1, f, cache), 7))
 				if thorough {
-					cs = append(cs, depth(world.UintCfg(2, urange(1, 5), 2, f, cache), 8))
+					cs = append(cs, depth(world.UintCfg(2, urange(1, 5), 2, f, cache), 7))
 				}
 			}
 		}
@@ -95,6 +95,11 @@ func StructConfigs(thorough bool, caches []string, formats []string) []*world.Co
 	cs = append(cs, world.BytesCfg(2, []uint8{0, 1, 0, 2, 0}, formats[len(formats)-1], "none"))
 	cs = append(cs, world.StructCfg(2, []uint8{0, 1, 0, 2, 0}, formats[len(formats)-1], "none"))
 	cs = append(cs, world.IntCfg(2, []int{-4, -2, -1, 0, 1, 2, 4}, []interface{}{"a"}, "", f0, "none"))
+	// narrow integer keys: numeric layers, ordered by their decimal text ("10" < "9")
+	cs = append(cs, world.Int32Cfg(2, []int32{-2, 9, 10, 100, 4}, f0, "none"))
+	cs = append(cs, world.Uint8Cfg(2, []uint8{2, 10, 100, 9, 200}, formats[len(formats)-1], "none"))
+	// a comparator answering -3/0/3
+	cs = append(cs, world.Wide(world.UintCfg(2, urange(1, 5), 1, formats[len(formats)-1], "none")))
 	return cs
 }
 
